@@ -903,7 +903,7 @@ func (fv *FuncVC) zerobase() Term {
 	t := fv.declare("adr.zerobase", SInt)
 	if !fv.declared["zerobasefact"] {
 		fv.declared["zerobasefact"] = true
-		fv.assume(and(lt(intLit(0), t), lt(t, intLit(65536))))
+		fv.assumeGlobal(and(lt(intLit(0), t), lt(t, intLit(65536))))
 	}
 	return t
 }
